@@ -176,6 +176,12 @@ func PubKeyFromCertChain(chain []*x509.Certificate) (crypto.PubKey, error) {
 		return nil, errors.Wrap(err, "certificate verification failed")
 	}
 
+	// x509 does not check the signature of a certificate that is itself in the
+	// roots pool: verify explicitly that the certificate is self-signed.
+	if err := cert.CheckSignature(cert.SignatureAlgorithm, cert.RawTBSCertificate, cert.Signature); err != nil {
+		return nil, errors.Wrap(err, "certificate is not self-signed")
+	}
+
 	var sk signedKey
 	if _, err := asn1.Unmarshal(keyExt.Value, &sk); err != nil {
 		return nil, errors.Wrap(err, "unmarshalling signed certificate failed")
